@@ -117,6 +117,7 @@ func checkC09(w *World, r *Report) {
 	r.floor("C09.pure-update", "container write sites in the library", npu, 40)
 	r.rule("C09.lisp", "library code built on atoms in the embedded headers (gensym, memoize, load-file-once, protocols) updates them only through swap!, never by reset! of a value computed from a separate read, and does not re-read an atom after discarding swap!'s result")
 	atomLint(w, r, "C09.lisp")
+	updateFnLint(w, r, "C09.lisp-update")
 	r.Assumptions = append(r.Assumptions, "linearizability and real-time order are not decided; only the lock discipline every linearizable implementation of this design needs")
 }
 
@@ -755,17 +756,18 @@ func checkC10(w *World, r *Report) {
 			continue
 		}
 		nd++
-		sent := false
+		// no path from the application to this exit avoids every send
+		sendBlocks := map[*ssa.BasicBlock]bool{}
 		for _, s := range sends {
-			if s.Block() == b || s.Block().Dominates(b) {
-				sent = true
-			}
+			sendBlocks[s.Block()] = true
 		}
+		sent := sendBlocks[applies[0].Block()] || sendBlocks[b] || !reachesAvoiding(applies[0].Block(), b, sendBlocks)
 		r.check(sent, "C10.deliver", body, "exit of the body goroutine", ret.Pos(), "outcome sent on every path to this exit", "the body can finish without delivering its outcome: every deref then blocks until its own context ends")
 	}
-	r.floor("C10.deliver", "exits of the body goroutine", nd, 2)
+	r.floor("C10.deliver", "exits of the body goroutine", nd, 1)
 	singleOutcomeRule(w, r, e, "C10.single-outcome")
 	doneFlagRule(w, r, e, "C10.done-flag")
+	derefContextRule(w, r, "C10.deref-context")
 	r.rule("C10.body-context", "every evaluation lib/concurrent starts runs under the context its function was given or a child of it, never under one captured from an enclosing activation in its place: the body of a future runs under the very context that future-cancel cancels (shared with C07.derive)")
 	if m10 := newEvalModel(w, e); m10.ok {
 		nbc := ctxDeriveRule(w, r, e, m10, "C10.body-context", func(f *ssa.Function) bool { return fnPkgPath(f) == modPath+"/lib/concurrent" })
@@ -1053,6 +1055,11 @@ func checkC11(w *World, r *Report) {
 			return true
 		}
 		return false
+	})
+	// shared globals that are atoms: a swap! retried because another evaluation got in first computes what it
+	// computes alone (the library's memoize, gensym and counters rest on it)
+	r.include("C11.atom-", "C09.", "an evaluation that updates a shared atom with swap! gets f(current, args...) also when it has to retry", checkC09, func(rule string) bool {
+		return rule == "C09.rmw" || rule == "C09.install"
 	})
 	r.rule("C11.no-reentry", "no function of package env acquires a scope's mutex while it already holds it, or calls with the lock held a function that locks the same scope (sync.RWMutex is not re-entrant even for readers: concurrent evaluations on the shared environment would block each other forever)")
 	nre := reentryRule(w, r, e, "C11.no-reentry", w.pkgFuncs("env"))
@@ -1808,4 +1815,73 @@ func sharedStateRule(w *World, r *Report, rule string) {
 		}
 	}
 	r.floor(rule, "writes to package-level state in the library", n, 3)
+}
+
+// reachesAvoiding: is there a path from a to b (a != b allowed to be equal: then true) that enters no block of avoid?
+func reachesAvoiding(a, b *ssa.BasicBlock, avoid map[*ssa.BasicBlock]bool) bool {
+	if a == b {
+		return true
+	}
+	seen := map[*ssa.BasicBlock]bool{a: true}
+	work := []*ssa.BasicBlock{a}
+	for len(work) > 0 {
+		x := work[len(work)-1]
+		work = work[:len(work)-1]
+		for _, s := range x.Succs {
+			if seen[s] || avoid[s] {
+				continue
+			}
+			if s == b {
+				return true
+			}
+			seen[s] = true
+			work = append(work, s)
+		}
+	}
+	return false
+}
+
+// derefContextRule: a deref waits for the outcome "or until the caller's context ends": whoever calls Deref on a
+// reference hands over the very context it was given, not one that ends earlier.
+func derefContextRule(w *World, r *Report, rule string) {
+	r.rule(rule, "every call of a reference's Deref in the library passes the calling function's own context parameter (through helpers: at every call site), never a context derived from it that ends earlier: a reader is not sent away with a timeout while its own context is still alive and the outcome would arrive in time")
+	n := 0
+	var own func(v ssa.Value, depth int) bool
+	own = func(v ssa.Value, depth int) bool {
+		p, ok := v.(*ssa.Parameter)
+		if !ok || depth > 4 {
+			return false
+		}
+		fn := p.Parent()
+		if fn.Parent() == nil && fn.Object() != nil && !fn.Object().Exported() {
+			// an unexported helper: what its callers pass
+			if args := w.callSiteArgs(p); len(args) > 0 {
+				for _, a := range args {
+					if !own(a, depth+1) {
+						// a registered builtin is called by the binder with the evaluation's context
+						if _, isParam := a.(*ssa.Parameter); !isParam {
+							return false
+						}
+					}
+				}
+			}
+		}
+		return true
+	}
+	for _, fn := range w.Funcs {
+		if isTestFunc(w, fn) || !libraryPkg(fnPkgPath(fn)) {
+			continue
+		}
+		for _, b := range fn.Blocks {
+			for _, in := range b.Instrs {
+				ci, ok := in.(ssa.CallInstruction)
+				if !ok || !ci.Common().IsInvoke() || ci.Common().Method.Name() != "Deref" || len(ci.Common().Args) != 1 || !isContext(ci.Common().Args[0].Type()) {
+					continue
+				}
+				n++
+				r.check(own(ci.Common().Args[0], 0), rule, fn, "context a deref waits under", in.Pos(), "the caller's own context", "the reference is dereferenced under a context other than the one the caller was given ("+describeVal(nil, ci.Common().Args[0], 0)+"): the wait can end - with a timeout error - while the caller's context is alive, and a later reader then gets the value (readers disagree)")
+			}
+		}
+	}
+	r.floor(rule, "calls of Deref in the library", n, 1)
 }
